@@ -497,6 +497,7 @@ impl Case {
         let mut any_must_fail = false;
         let mut any_write_fault = false;
         let mut all_formatted = true;
+        let mut noncanonical: Vec<String> = vec![];
         let mut expected_blocks: Vec<Vec<u8>> = vec![];
         let mut blocks_judgeable = true;
         for (i, f) in self.files.iter().enumerate() {
@@ -548,7 +549,19 @@ impl Case {
                 }
                 continue;
             }
-            if original != reference {
+            // Legacy multi-byte encodings have non-canonical byte forms (decode then encode does
+            // not reproduce the input). pasfmt compares *texts*: such a file, when its text is
+            // already formatted, is neither rewritten nor flagged although its bytes differ from
+            // what the stdin invocation prints.
+            let same_text_other_bytes = original != reference && {
+                let a = codec::ref_read(self.configured_encoding(), original);
+                let b = codec::ref_read(self.configured_encoding(), reference);
+                matches!((&a.text, &b.text), (Ok(x), Ok(y)) if x == y) && a.enc == b.enc
+            };
+            if same_text_other_bytes {
+                stats.probe("c16_noncanonical_bytes_of_formatted_text");
+                noncanonical.push(f.path.clone());
+            } else if original != reference {
                 all_formatted = false;
             }
             if write_failed {
@@ -559,7 +572,12 @@ impl Case {
             match self.mode {
                 Mode::Files => {
                     let got = final_bytes.unwrap_or_default();
-                    if &got != reference {
+                    if same_text_other_bytes && &got == original {
+                        out.push(Finding {
+                            oracle: "c16.noncanonical_input_left_as_is".into(),
+                            detail: format!("{}: text already formatted, bytes are a non-canonical form in {}: file keeps its bytes, stdin prints the canonical ones", f.path, self.configured_encoding().name()),
+                        });
+                    } else if &got != reference {
                         out.push(Finding {
                             oracle: "c16.files_ne_stdin".into(),
                             detail: format!("{}: {}", f.path, summarize_diff(&got, reference)),
@@ -623,7 +641,14 @@ impl Case {
                     } else {
                         stats.probe("c16_check_on_unformatted_content");
                     }
-                    if all_formatted == exit_nonzero(&r) {
+                    if all_formatted && !noncanonical.is_empty() {
+                        if !exit_nonzero(&r) {
+                            out.push(Finding {
+                                oracle: "c16.noncanonical_input_passes_check".into(),
+                                detail: format!("{:?}: text already formatted but the bytes differ from the stdin result (non-canonical form in {}); check exits 0", noncanonical, self.configured_encoding().name()),
+                            });
+                        }
+                    } else if all_formatted == exit_nonzero(&r) {
                         out.push(Finding {
                             oracle: "c16.check_exit_mismatch".into(),
                             detail: format!(
